@@ -105,7 +105,7 @@ where
     let mut source_xu = Source::new(seed32(seed, 4));
     let mut rng = Sm(seed ^ 0xABCDEF);
 
-    let k_in = 3 * b + 1;
+    let k_in = if r.get("kin").is_some() { r.usize("kin") } else { 3 * b + 1 };
     let k_key = k_in + b * dsize;
     let dnum = k_in.div_ceil(b * dsize);
     let glwe_infos = EncryptionLayout::new_from_default_sigma(GLWELayout {
@@ -165,6 +165,13 @@ where
             module.glwe_encrypt_sk(&mut ct, &pt, &sk_prep, &glwe_infos, &mut source_xe, &mut source_xa, scratch.borrow());
             let mut ksk_prep = module.glwe_switching_key_prepared_alloc_from_infos(&ksk);
             module.glwe_switching_key_prepare(&mut ksk_prep, &ksk, scratch.borrow());
+            if r.get("poison").is_some() {
+                let word = r.i64("poison").to_le_bytes();
+                let bytes: &mut [u8] = scratch.data.as_mut();
+                for (i, x) in bytes.iter_mut().enumerate() {
+                    *x = word[i % 8];
+                }
+            }
             module.glwe_keyswitch(&mut ct_out, &ct, &ksk_prep, scratch.borrow());
             out_glwe(&ct_out)
         }
@@ -223,6 +230,59 @@ where
             module.glwe_automorphism(&mut ct_out, &ct, &atk_prep, scratch.borrow());
             out_glwe(&ct_out)
         }
+        "tensor_relin" => {
+            // core level: tensor product of two rank-1 GLWE, then relinearisation with a tensor key of digit size
+            // `dsize`; `poison=` overwrites the scratch arena between the two calls
+            use poulpy_core::{GLWETensoring, layouts::{GLWETensor, LWEInfos}};
+            let ct_k = 5 * b;
+            let layout = EncryptionLayout::new_from_default_sigma(GLWELayout {
+                n: n.into(),
+                base2k: b.into(),
+                k: ct_k.into(),
+                rank: Rank(1),
+            })
+            .unwrap();
+            let tsk_layout = EncryptionLayout::new_from_default_sigma(GLWETensorKeyLayout {
+                n: n.into(),
+                base2k: b.into(),
+                k: (ct_k + dsize * b).into(),
+                rank: Rank(1),
+                dsize: dsize.into(),
+                dnum: ct_k.div_ceil(dsize * b).into(),
+            })
+            .unwrap();
+            let mut sk1: GLWESecret<Vec<u8>> = GLWESecret::alloc_from_infos(&layout);
+            sk1.fill_ternary_prob(0.5, &mut source_xs);
+            let mut sk1p = module.glwe_secret_prepared_alloc_from_infos(&layout);
+            module.glwe_secret_prepare(&mut sk1p, &sk1);
+            let mut tsk = GLWETensorKey::alloc_from_infos(&tsk_layout);
+            module.glwe_tensor_key_encrypt_sk(&mut tsk, &sk1, &tsk_layout, &mut source_xa, &mut source_xe, scratch.borrow());
+            let mut tsk_prep = module.alloc_tensor_key_prepared_from_infos(&tsk_layout);
+            module.prepare_tensor_key(&mut tsk_prep, &tsk, scratch.borrow());
+            let mut c1: GLWE<Vec<u8>> = GLWE::alloc_from_infos(&layout);
+            let mut c2: GLWE<Vec<u8>> = GLWE::alloc_from_infos(&layout);
+            let mut p1: GLWEPlaintext<Vec<u8>> = GLWEPlaintext::alloc_from_infos(&layout);
+            for x in p1.data_mut().raw_mut().iter_mut() {
+                *x = rng.val("norm", b);
+            }
+            module.glwe_encrypt_sk(&mut c1, &p1, &sk1p, &layout, &mut source_xe, &mut source_xa, scratch.borrow());
+            module.glwe_encrypt_sk(&mut c2, &p1, &sk1p, &layout, &mut source_xe, &mut source_xa, scratch.borrow());
+            let mut tensor: GLWETensor<Vec<u8>> = GLWETensor::alloc_from_infos(&layout);
+            module.glwe_tensor_apply(ct_k + r.usize("co"), &mut tensor, &c1, ct_k, &c2, ct_k, scratch.borrow());
+            if r.get("poison").is_some() {
+                let word = r.i64("poison").to_le_bytes();
+                let bytes: &mut [u8] = scratch.data.as_mut();
+                for (i, x) in bytes.iter_mut().enumerate() {
+                    *x = word[i % 8];
+                }
+            }
+            let mut res: GLWE<Vec<u8>> = GLWE::alloc_from_infos(&layout);
+            module.glwe_tensor_relinearize(&mut res, &tensor, &tsk_prep, tsk_prep.size(), scratch.borrow());
+            if r.usize("tensor") == 1 {
+                return format!("tensor={}", show(tensor.data().raw()));
+            }
+            out_glwe(&res)
+        }
         "ckks_square" | "ckks_mul" => {
             // rank-1 CKKS: encrypt two quantised plaintexts, multiply (tensor + relinearise + rescale)
             let prec = CKKSMeta {
@@ -268,6 +328,15 @@ where
             let c1 = enc(&mut rng, &mut source_xa, &mut source_xe, &mut scr);
             let c2 = enc(&mut rng, &mut source_xa, &mut source_xe, &mut scr);
             let mut res = CKKSCiphertext::alloc(n.into(), ct_k.into(), b.into());
+            // `poison=<i64>`: overwrite the whole scratch arena with this word before the measured call —
+            // the result must not depend on it (no read of stale scratch)
+            if r.get("poison").is_some() {
+                let word = r.i64("poison").to_le_bytes();
+                let bytes: &mut [u8] = scr.data.as_mut();
+                for (i, x) in bytes.iter_mut().enumerate() {
+                    *x = word[i % 8];
+                }
+            }
             let rr = if op == "ckks_square" {
                 module.ckks_square_into(&mut res, &c1, &tsk_prep, scr.borrow())
             } else {
